@@ -435,6 +435,7 @@ def jobs(pid, tier, seed):
     out = [{"kind": "directed", "i": i} for i in range(len(DIRECTED))]
     n = 220 if tier == "quick" else 5000
     out += [{"kind": "random", "seed": seed * 1000003 + i, "max_resume": 10 if tier == "quick" else 40} for i in range(n)]
+    out += [{"kind": "random", "seed": seed * 1000003 + 5000000 + i, "max_resume": 10 if tier == "quick" else 40, "life": 1} for i in range(n // 2)]
     return out
 
 
@@ -444,7 +445,7 @@ def run_job(pid, job, acc):
         analyse_history(acc, h, cfg, 0, "directed:%d" % job["i"], 1000, random.Random(0))
         return
     s = job["seed"]
-    hist = generate(s, **GEN)
+    hist = generate(s, style=("life" if job.get("life") else None), **GEN)
     cfg = cfg_for(s)
     analyse_history(acc, hist, cfg, s, "random:%d" % s, job["max_resume"], random.Random(s), others_p=0.4)
 
